@@ -81,6 +81,9 @@ let model (e : env) (fields : string array) : string =
   | "sw" ->
       let k = (match f 1 with "n" -> SplNone | "h" -> SplHyphen | _ -> SplCustom) in
       opt_or_panic ewords (split_words cw (split_points alnum cs k) (dwords (f 2)))
+  | "walg" ->
+      let a = (dopts ("0;lf;_;_;0;" ^ f 3 ^ ";a;n")).o_alg in
+      opt_or_panic egroups (run_alg e.ofit a (dwords (f 1)) (List.map n_of_dec (dlist (f 2))))
   | "ff" ->
       let rq = first_fit numQ id (List.map (dfrag_with qconv) (dlist (f 1))) (List.map qconv (dlist (f 2))) in
       let sq = egroups rq in
